@@ -12,6 +12,7 @@ import (
 	"os"
 	"path/filepath"
 	"strconv"
+	"strings"
 	"sync"
 	"testing"
 	"time"
@@ -45,6 +46,7 @@ type world struct {
 	leaves     int
 	dms        map[int]olric.DMap
 	fragOp     bool // an operation was issued while a partition had a previous owner holding data
+	disturbed  int  // operations that ended in a transport error (membership was not as stable as assumed)
 }
 
 func (w *world) client(m *cluster.Member) olric.DMap {
@@ -76,6 +78,20 @@ func classify(err error) string {
 		return "notfound"
 	}
 	return "err:" + err.Error()
+}
+
+// transport reports whether an error is a transport-level failure (the outcome of the operation is open).
+func transport(err error) bool {
+	if err == nil {
+		return false
+	}
+	s := err.Error()
+	for _, x := range []string{"client is closed", "connection refused", "EOF", "i/o timeout", "broken pipe", "connection reset", "use of closed", "server is gone"} {
+		if strings.Contains(s, x) {
+			return true
+		}
+	}
+	return false
 }
 
 func (w *world) step(s string) { w.w.Emit(trace.Ev{"t": "step", "what": s}) }
@@ -138,14 +154,20 @@ func (w *world) ops(n int, phase string) {
 			w.vseq++
 			v := fmt.Sprintf("v%d-%040d", w.vseq, 0)
 			err := d.Put(ctx, k, v)
-			w.w.Emit(trace.Ev{"t": "op", "op": "put", "k": k, "v": v, "ret": classify(err), "indeterminate": false, "via": m.Index, "phase": phase})
+			if transport(err) {
+				w.disturbed++
+			}
+			w.w.Emit(trace.Ev{"t": "op", "op": "put", "k": k, "v": v, "ret": classify(err), "indeterminate": transport(err), "via": m.Index, "phase": phase})
 			if err == nil {
 				w.hadB[k] = len(live) >= w.R
 				w.sinceLeave[k] = true
 			}
 		} else {
 			_, err := d.Delete(ctx, k)
-			w.w.Emit(trace.Ev{"t": "op", "op": "del", "k": k, "v": "", "ret": classify(err), "indeterminate": false, "via": m.Index, "phase": phase})
+			if transport(err) {
+				w.disturbed++
+			}
+			w.w.Emit(trace.Ev{"t": "op", "op": "del", "k": k, "v": "", "ret": classify(err), "indeterminate": transport(err), "via": m.Index, "phase": phase})
 		}
 	}
 }
@@ -159,6 +181,9 @@ func (w *world) readAll(phase string) {
 			if err == nil {
 				ret = "val"
 				v, _ = g.String()
+			} else if transport(err) {
+				w.disturbed++
+				continue // no answer: nothing to judge
 			} else if err != olric.ErrKeyNotFound {
 				ret = classify(err)
 			}
@@ -237,6 +262,7 @@ type summary struct {
 	Scenarios          int      `json:"scenarios"`
 	DistinctNontrivial int      `json:"distinct_nontrivial"`
 	NotStabilised      int      `json:"not_stabilised"`
+	Disturbed          int      `json:"transport_errors"`
 	Notes              []string `json:"notes"`
 	Samples            []any    `json:"samples"`
 	Configs            []string `json:"configs"`
@@ -263,7 +289,7 @@ func TestC03(t *testing.T) {
 	sum := &summary{}
 	var mu sync.Mutex
 	var wg sync.WaitGroup
-	sem := make(chan struct{}, 6)
+	sem := make(chan struct{}, 4)
 	type res struct {
 		evs []trace.Ev
 	}
@@ -371,6 +397,7 @@ func TestC03(t *testing.T) {
 			c.ShutdownAsync()
 			mu.Lock()
 			sum.Evaluations += w.evals
+			sum.Disturbed += w.disturbed
 			sum.Scenarios++
 			sum.Configs = append(sum.Configs, label+" "+fmt.Sprint(desc))
 			if ok && w.fragOp {
@@ -392,4 +419,180 @@ func TestC03(t *testing.T) {
 	cluster.WaitBackground(20 * time.Second)
 	tw.Close()
 	writeSummary(out, "c03.summary.json", sum)
+}
+
+// TestC02 : acknowledged writes survive the stop of up to R-1 members.
+func TestC02(t *testing.T) {
+	out := os.Getenv("VERIF_OUT")
+	if out == "" {
+		t.Skip("VERIF_OUT not set")
+	}
+	rng := rand.New(rand.NewSource(int64(envInt("VERIF_SEED", 1))))
+	nscen := envInt("VERIF_SCENARIOS", 12)
+	tw, err := trace.New(filepath.Join(out, "c02.ndjson"))
+	if err != nil {
+		t.Fatal(err)
+	}
+	sum := &summary{}
+	var mu sync.Mutex
+	var wg sync.WaitGroup
+	sem := make(chan struct{}, 4)
+	for s := 0; s < nscen; s++ {
+		s := s
+		seed := rng.Int63()
+		wg.Add(1)
+		sem <- struct{}{}
+		go func() {
+			defer wg.Done()
+			defer func() { <-sem }()
+			rng := rand.New(rand.NewSource(seed))
+			R := 2 + rng.Intn(2)
+			N := R + 1 + rng.Intn(2)
+			if N > 5 {
+				N = 5
+			}
+			rr := rng.Intn(2) == 0
+			path := filepath.Join(out, fmt.Sprintf("c02-%d.part", s))
+			pw, err := trace.New(path)
+			if err != nil {
+				panic(err)
+			}
+			c, err := cluster.Start(cluster.Options{Replicas: R, Partitions: 13, ReadRepair: rr, Manual: true}, N)
+			if err != nil {
+				panic(err)
+			}
+			label := fmt.Sprintf("N=%d R=%d read-repair=%v", N, R, rr)
+			w := &world{c: c, w: pw, rng: rng, dm: "dur", R: R, hadB: map[string]bool{}, sinceLeave: map[string]bool{}, dms: map[int]olric.DMap{}}
+			for i := 0; i < 30; i++ {
+				w.keys = append(w.keys, fmt.Sprintf("k%d", i))
+			}
+			pw.Emit(trace.Ev{"t": "reset", "seq": s + 1, "cfg": label})
+			// every asserted key is written after the cluster reached its final size
+			w.ops(90, "healthy")
+			w.readAll("healthy")
+			nfail := 1 + rng.Intn(R-1)
+			var desc []string
+			ok := true
+			heldCopy := false
+			for f := 0; f < nfail && ok; f++ {
+				if err := c.WaitStable(15*time.Second, false); err != nil {
+					ok = false
+					break
+				}
+				w.beforeLoss(nil)
+				live := c.Live()
+				var victim *cluster.Member
+				switch rng.Intn(3) {
+				case 0:
+					victim = live[0] // the oldest member is the coordinator
+				default:
+					victim = live[rng.Intn(len(live))]
+				}
+				// did the victim hold a copy of an asserted key?
+				for _, k := range w.keys {
+					for _, kind := range []partitions.Kind{partitions.PRIMARY, partitions.BACKUP} {
+						if _, has := victim.V.DMap.VerifEntry(w.dm, k, kind); has {
+							heldCopy = true
+						}
+					}
+				}
+				graceful := rng.Intn(2) == 0
+				during := rng.Intn(2) == 0
+				desc = append(desc, fmt.Sprintf("stop(member %d coordinator=%v graceful=%v during-workload=%v)", victim.Index, victim == live[0], graceful, during))
+				w.step(desc[len(desc)-1])
+				delete(w.dms, victim.Index)
+				stopWorkload := make(chan struct{})
+				var wl sync.WaitGroup
+				if during {
+					// a workload runs while the member goes away: what it touches is no longer asserted
+					// (not acknowledged in a healthy cluster); everything else must be unaffected
+					touched := w.keys[20:]
+					for _, k := range touched {
+						pw.Emit(trace.Ev{"t": "forget", "k": k, "why": "operated on while a member was stopping"})
+					}
+					survivors := []*cluster.Member{}
+					for _, m := range live {
+						if m != victim {
+							survivors = append(survivors, m)
+						}
+					}
+					clients := []olric.DMap{}
+					for _, m := range survivors {
+						clients = append(clients, w.client(m))
+					}
+					wl.Add(1)
+					go func() {
+						defer wl.Done()
+						r2 := rand.New(rand.NewSource(seed + 7))
+						ctx := context.Background()
+						for {
+							select {
+							case <-stopWorkload:
+								return
+							default:
+							}
+							k := touched[r2.Intn(len(touched))]
+							d := clients[r2.Intn(len(clients))]
+							if r2.Intn(3) == 0 {
+								d.Delete(ctx, k)
+							} else {
+								d.Put(ctx, k, fmt.Sprintf("w%d", r2.Intn(1000)))
+							}
+						}
+					}()
+					time.Sleep(time.Duration(rng.Intn(20)) * time.Millisecond)
+				}
+				c.Stop(victim, graceful)
+				stable := w.waitViews()
+				time.Sleep(time.Duration(rng.Intn(60)) * time.Millisecond)
+				close(stopWorkload)
+				wl.Wait()
+				if stable {
+					stable = c.WaitStable(20*time.Second, false) == nil
+				}
+				if !stable {
+					mu.Lock()
+					sum.NotStabilised++
+					sum.Notes = append(sum.Notes, fmt.Sprintf("scenario %d %v: did not stabilise", s+1, desc))
+					mu.Unlock()
+					ok = false
+					break
+				}
+				w.step("stable after the stop")
+				w.readAll("after the stop")
+			}
+			if ok {
+				// plain operations after the failure behave as in a healthy cluster
+				w.ops(40, "after the failure")
+				w.readAll("after operations on the surviving copies")
+				if err := c.WaitStable(15*time.Second, false); err == nil {
+					w.readAll("finally")
+				}
+			}
+			pw.Close()
+			c.ShutdownAsync()
+			mu.Lock()
+			sum.Evaluations += w.evals
+			sum.Disturbed += w.disturbed
+			sum.Scenarios++
+			sum.Configs = append(sum.Configs, label+" "+fmt.Sprint(desc))
+			if ok && heldCopy {
+				sum.DistinctNontrivial++
+			}
+			if len(sum.Samples) < 2 {
+				sum.Samples = append(sum.Samples, map[string]any{"cfg": label, "failures": desc})
+			}
+			mu.Unlock()
+		}()
+	}
+	wg.Wait()
+	for s := 0; s < nscen; s++ {
+		b, err := os.ReadFile(filepath.Join(out, fmt.Sprintf("c02-%d.part", s)))
+		if err == nil {
+			tw.Raw(b)
+		}
+	}
+	cluster.WaitBackground(20 * time.Second)
+	tw.Close()
+	writeSummary(out, "c02.summary.json", sum)
 }
